@@ -196,9 +196,12 @@ class World:
         """Run one build step on the model and on the real library and compare."""
         versions = versions or {}
         sr = StepResult()
-        self.steps.append(['build', label, jsonable(versions)])
+        self.steps.append(['build', label, jsonable(versions)] +
+                          ([] if isinstance(label, int) else [body]))
         # ---- model (from scratch)
         mctx = Ctx(program, self.sb, False, versions=versions)
+        mask = {env.rel(self.sb, d) for d in self.cache_dirs}
+        mctx.mask = mask
         holder = {}
         mctx.mb_getter = lambda: self.api.last_build
         if model_hooks:
@@ -222,6 +225,7 @@ class World:
         # ---- real
         sr.pre = self.real_tree()
         rctx = Ctx(program, self.sb, True, versions=versions)
+        rctx.mask = mask
         if hooks:
             rctx.hooks.update(hooks)
         rctx.hooks.setdefault('threads', threads)
@@ -316,8 +320,9 @@ class World:
         # leftovers in the temp dir
         if sr.tmp_left:
             divs.append(div('tmp_leftover', names=sr.tmp_left[:3]))
-        # C03: event-level
+        # C03: event-level + snapshot-level
         self.check_events(sr)
+        self.check_foreign(sr, 'build')
 
     def masked_query(self, kind, r, ans, mans):
         """C04 latitude: directories that exist only to hold the cache file are
@@ -411,6 +416,13 @@ class World:
             dup = [k for k in inv_set if inv.count(k) > 1]
             sr.divs.append(div('invoked_twice', keys=[_k(self, k) for k in dup][:3]))
         extra = [k for k in inv_set if k not in need_keys]
+        # an unspecified answer (size of a directory, visibility of cache-only
+        # directories) was recorded somewhere in this build: the library may
+        # legitimately re-execute that call, rewrite its output and thereby
+        # invalidate its readers - effectiveness is not judged for this build
+        build_tainted = any(n.taint for n in iter_nodes(mb.roots))
+        sr.stats['tainted_builds'] = 1 if build_tainted else 0
+        sr.stats['c05_judged_builds'] = 0 if build_tainted else 1
         # report only top-most extra invocations (children of an extra parent follow from it)
         tops = []
         for k in extra:
@@ -436,7 +448,7 @@ class World:
                     under_extra = True
                     break
                 par = parent_of.get(par.key)
-            if under_extra or taint:
+            if under_extra or taint or build_tainted:
                 continue
             n = allnodes.get(k)
             sr.divs.append(div('extra_invocation', key=_k(self, k), why=why,
@@ -446,7 +458,7 @@ class World:
             sr.divs.append(div('missing_invocation', key=_k(self, k), why=need_keys[k].why))
         # reused outputs must not be rewritten (same inode and mtime)
         for n in iter_nodes(mb.roots):
-            if n.t == 'bf' and not n.raised and n.reusable and not (n.taint or _tainted(n)):
+            if n.t == 'bf' and not n.raised and n.reusable and not build_tainted:
                 a, b = sr.pre.get(n.path), sr.post.get(n.path)
                 if a is not None and b is not None and a[0] == 'f' and b[0] == 'f':
                     if a[2] != b[2] or a[3] != b[3]:
@@ -479,6 +491,120 @@ class World:
                                paths=[env.rel(self.sb, p) for p in e['paths']],
                                classes=[self.path_class(sr, env.rel(self.sb, p)) for p in e['paths']]))
             break
+
+    def managed_sets(self, sr):
+        rec = sr.prev_record
+        files = set()
+        if sr.mb is not None:
+            files |= set(sr.mb.claimed_files)
+        if sr.rctx is not None:
+            for (r, ok, exc, ex) in sr.rctx.peeks:
+                files.add(self.ap(r))
+        dirs = set()
+        if rec is not None:
+            files |= set(rec.outputs)
+            dirs |= set(rec.created_dirs)
+        files.add(self.cache)
+        return files, dirs
+
+    def check_foreign(self, sr, phase):
+        """C03 snapshot-level: every regular file outside the managed set keeps bytes,
+        mtime and inode; every directory that is not a recorded created directory
+        stays.  (Files at managed paths are judged by C01/C02.)"""
+        files, dirs = self.managed_sets(sr)
+        bad = []
+        for p, a in sr.pre.items():
+            b = sr.post.get(p)
+            if a[0] == 'f' and p not in files:
+                if b is None:
+                    bad.append((env.rel(self.sb, p), 'file-deleted'))
+                elif b[0] != 'f':
+                    bad.append((env.rel(self.sb, p), 'file-replaced'))
+                elif a[1] != b[1]:
+                    bad.append((env.rel(self.sb, p), 'bytes'))
+                elif a[2] != b[2]:
+                    bad.append((env.rel(self.sb, p), 'mtime'))
+                elif a[3] != b[3]:
+                    bad.append((env.rel(self.sb, p), 'inode(moved)'))
+            elif a[0] == 'd' and p not in dirs and p != self.sb:
+                if b is None or b[0] != 'd':
+                    # a directory may legitimately disappear only if a build created it:
+                    # directories made by the library during this very call never are in pre
+                    bad.append((env.rel(self.sb, p), 'dir-removed'))
+        if bad:
+            sr.divs.append(div('foreign_changed', phase=phase, what=bad[:4],
+                               classes=[self.path_class(sr, r) for r, _ in bad[:4]]))
+
+    # ------------------------------------------------------------ twin (literal C01 oracle)
+    def twin_build(self, program, body, versions=None):
+        """Run the same root with the same versions and *no cache* by the real
+        library on a copy of the sandbox from which - according to the model's
+        record - previous outputs, the cache file and emptied created directories
+        were deleted.  Must be called before the incremental build of the step.
+        Returns (result, tree) with tree: rel -> ('d',)|('f', bytes)."""
+        versions = versions or {}
+        saved = self.sb + '.twin'
+        if os.path.exists(saved):
+            shutil.rmtree(saved)
+        os.rename(self.sb, saved)
+        try:
+            _copy_tree_exact(saved, self.sb)
+            rec = self.model.current_record()
+            if os.path.isfile(self.cache):
+                os.remove(self.cache)
+            if rec is not None:
+                for p in rec.outputs:
+                    if os.path.isfile(p) and not os.path.islink(p):
+                        os.remove(p)
+                for d in sorted(rec.created_dirs, key=lambda x: -len(x)):
+                    try:
+                        os.rmdir(d)
+                    except OSError:
+                        pass
+            ctx = Ctx(program, self.sb, True, versions=versions)
+            ctx.mask = {env.rel(self.sb, d) for d in self.cache_dirs}
+            ctx.hooks['threads'] = False
+            try:
+                v = FileBuilder.build_versioned(self.cache, self.build_name, versions,
+                                                make_root(ctx, body))
+                res = ['ok', v]
+            except Exception as e:
+                res = ['exc', errname(e)]
+            snap = env.snapshot(self.sb, with_meta=False)
+            tree = {}
+            for p, e in snap.items():
+                r = env.rel(self.sb, p)
+                tree[r] = ('f', b'<cache>') if p == self.cache and e[0] == 'f' else e
+            return res, tree, ctx
+        finally:
+            shutil.rmtree(self.sb, ignore_errors=True)
+            os.rename(saved, self.sb)
+
+    def compare_twin(self, sr, twin):
+        tres, ttree, tctx = twin
+        same_res = sr.rres[0] == tres[0] and (
+            type_exact_equal(sr.rres[1], tres[1]) if tres[0] == 'ok' else sr.rres[1] == tres[1])
+        if not same_res:
+            sr.divs.append(div('twin_result', real=_res(sr.rres), twin=_res(tres)))
+        if sr.rres[0] == 'ok' and tres[0] == 'ok':
+            diffs = []
+            post = {}
+            for p, e in sr.post.items():
+                r = env.rel(self.sb, p)
+                post[r] = ('f', b'<cache>') if p == self.cache and e[0] == 'f' else (
+                    e if e[0] != 'f' else ('f', e[1]))
+            for r in sorted(set(post) | set(ttree)):
+                a, b = post.get(r), ttree.get(r)
+                if a != b:
+                    diffs.append((r, None if a is None else a[0], None if b is None else b[0]))
+            if diffs:
+                sr.divs.append(div('twin_tree', diffs=diffs[:6],
+                                   classes=[self.path_class(sr, d[0]) for d in diffs[:6]]))
+        # the model must agree with the twin as well (model validation)
+        msame = sr.mres[0] == tres[0] and (
+            type_exact_equal(sr.mres[1], tres[1]) if tres[0] == 'ok' else sr.mres[1] == tres[1])
+        if not msame:
+            sr.divs.append(div('model_mismatch', model=_res(sr.mres), twin=_res(tres)))
 
     # ------------------------------------------------------------ clean on both
     def clean(self, build_name='__same__', compare=True):
@@ -514,6 +640,7 @@ class World:
             if sr.tmp_left:
                 sr.divs.append(div('tmp_leftover', names=sr.tmp_left[:3]))
             rec = sr.prev_record
+            self.check_foreign(sr, 'clean')
             allowed_files = set(rec.outputs) if rec else set()
             allowed_rmdirs = set(rec.created_dirs) if rec else set()
             bad = classify_lib_mutations(mon, allowed_files, allowed_rmdirs, self.tmp, self.cache)
